@@ -42,7 +42,9 @@ func newAdversary(w *World) *Adversary {
 }
 
 // owns: the adversary may sign as identity i.
-func (a *Adversary) owns(i int) bool { return i >= 0 && i < len(a.w.IDs) && (a.w.IsByz(i) || a.w.IsOutsider(i)) }
+func (a *Adversary) owns(i int) bool {
+	return i >= 0 && i < len(a.w.IDs) && (a.w.IsByz(i) || a.w.IsOutsider(i))
+}
 
 func (a *Adversary) sign(i int, h uint64, content []byte) []byte {
 	if !a.owns(i) {
@@ -425,7 +427,9 @@ func (a *Adversary) Do(s *ByzSpec) {
 
 // newView builds a NEW_VIEW from s.As for (h,v).
 // P0 vote mode: 0 genuine seen votes + own (+ other Byzantine) votes; 1 additionally forged votes in correct members' names;
-//               2 own + outsider votes only; 3 genuine votes only
+//
+//	2 own + outsider votes only; 3 genuine votes only
+//
 // P1 proof mode for the adversary's own votes: 0 none, 1 best genuine proof, 2 a lower genuine proof, 3 forged proof
 // P2 proposal: 0..k block choice; 9 = block of the highest proof among the votes
 // P3 embedded header mode: 0 consistent; 1 embedded hash differs from the attached block; 2 embedded view v+1; 3 signed by non-leader key
